@@ -338,7 +338,10 @@ def process_extract(gen, sec, vu_path):
         ms = [m for m in ms if mask[m.start()] == text[m.start()] or text[m.start()] in '"\'']
         if len(ms) != max(of, nth if of == 1 and nth > 1 else of):
             raise UnitError('lost anchor: %s:%d: /%s/ matches %d times in %s (expected %d)' % (vu_path, d['line'], rx, len(ms), item_name, of))
-        return ms[nth - 1].start(), ms[nth - 1].end()
+        m = ms[nth - 1]
+        if 't' in m.re.groupindex and m.group('t') is not None:      # (?P<t>..): the edit applies to this group, the rest is context
+            return m.start('t'), m.end('t')
+        return m.start(), m.end()
 
     external = 'external' in dnames
     for d in dirs:
